@@ -31,8 +31,19 @@ FIELDS = _uniq(
 U64 = _uniq([0, 1, 2, 3, 9, 10, 11, 99, 100, 255, 256, 10**3, 10**9, 10**18, 10**19, 2**31, 2**32 - 1, 2**32, 2**32 + 1,
              2**53, 2**62, 2**63 - 1, 2**63, 2**63 + 1, 2**64 - 2, 2**64 - 1] + [10**k for k in range(1, 20)] + [10**k - 1 for k in range(1, 20)])
 
+def limbs(rng):
+    """256 bits assembled from limbs of one of the library's layouts (26/32/52/64 bits), each limb 0, all-ones, 1, all-ones-1,
+    top bit only or random: the operands that maximise or kill carries between limbs"""
+    w = rng.choice((26, 32, 52, 64)); v = 0; sh = 0
+    while sh < 256:
+        k = rng.randrange(8); full = (1 << w) - 1
+        limb = (0, full, full, 1, full - 1, 1 << (w - 1), rng.getrandbits(w), rng.getrandbits(w))[k]
+        v |= limb << sh; sh += w
+    return v & (2**256 - 1)
+
 def scalar(rng, pool_p=0.34):
     if rng.random() < pool_p: return rng.choice(SCALARS)
+    if rng.random() < 0.2: return limbs(rng)
     return rng.getrandbits(256)
 def valid_seckey(rng, pool_p=0.25):
     while True:
@@ -40,6 +51,7 @@ def valid_seckey(rng, pool_p=0.25):
         if 0 < k < n: return k
 def field(rng, pool_p=0.34):
     if rng.random() < pool_p: return rng.choice(FIELDS)
+    if rng.random() < 0.2: return limbs(rng)
     return rng.getrandbits(256)
 def u64(rng, pool_p=0.4):
     if rng.random() < pool_p: return rng.choice(U64)
